@@ -58,12 +58,9 @@ func runC06(args []string) {
 		}
 		corpus.forEachType(asan, func(ch *core.Child, t *CType) {
 			vg := codec.NewVG(t.Ctx, r.Seed)
-			cand := vg.Records(t.Def, nv*3)
-			// prefer values that exercise many roles: all-present/first values first
-			evs := encodeValues(ch, t, cand)
-			if len(evs) > nv {
-				evs = evs[:nv]
-			}
+			cand := vg.Records(t.Def, 12)
+			// the first value (everything present) and those that add the most wire features
+			evs := pickRich(t, encodeValues(ch, t, cand), nv)
 			for vi, ev := range evs {
 				if r.Broken() {
 					return
